@@ -380,13 +380,15 @@ func fileReadAux(L *LState, file *lFile, idx int) int {
 				switch opt {
 				case 'n':
 					var v LNumber
-					_, err = fmt.Fscanf(file.reader, LNumberScanFormat, &v)
-					if err == io.EOF {
-						L.Push(LNil)
-						goto normalreturn
-					}
+					var ok bool
+					v, ok, err = readBufioNumber(file.reader)
 					if err != nil {
 						goto errreturn
+					}
+					if !ok {
+						// no numeral (or end of file): nil for this format, the earlier results stay
+						L.Push(LNil)
+						goto normalreturn
 					}
 					L.Push(v)
 				case 'a':
